@@ -67,6 +67,9 @@ func boundsRule(r *R, rule string, fns []*ssa.Function, minSites int) {
 		})
 	}
 	r.Ob(rule, "instances").Must(n >= minSites, "expected >= %d bounds obligations, found %d", minSites, n).OK("%d obligations, %d proven from dominating guards", n, proven)
+	for a := range b.used {
+		r.assume(a)
+	}
 }
 
 func c19r6(r *R) {
@@ -78,7 +81,7 @@ func unprotectedFuncs(r *R) []*ssa.Function {
 	c := r.C
 	seen := map[*ssa.Function]bool{}
 	var out []*ssa.Function
-	for _, g := range goroutineRoots(c, proxyFuncs(c)) {
+	for _, g := range append(goroutineRoots(c, proxyFuncs(c)), stdlibDrivenRoots(c)...) {
 		unprotectedWalk(c, g.Fn, func(fn *ssa.Function, i ssa.Instruction, path func() string) {
 			if !seen[fn] {
 				seen[fn] = true
